@@ -34,6 +34,7 @@ type options struct {
 	keep    bool
 	verbose bool
 	only    string
+	out     string
 }
 
 func main() {
@@ -55,6 +56,7 @@ func main() {
 	fs.BoolVar(&o.keep, "keep", false, "keep SMT files")
 	fs.BoolVar(&o.verbose, "v", false, "verbose")
 	fs.StringVar(&o.only, "only", "", "only obligations containing this substring")
+	fs.StringVar(&o.out, "out", "", "directory for evidence/replays/work (default: the verification root)")
 	fs.Parse(os.Args[2:])
 	if s := os.Getenv("VERIF_SEED"); s != "" && o.seed == 0 {
 		if n, err := strconv.Atoi(s); err == nil {
@@ -63,6 +65,9 @@ func main() {
 	}
 	if t := os.Getenv("VERIF_TIER"); t == "quick" || t == "thorough" {
 		o.tier = t
+	}
+	if o.out == "" {
+		o.out = o.verif
 	}
 	if o.timeout == 0 {
 		if o.tier == "thorough" {
@@ -295,10 +300,10 @@ func cmdCheck(eng *Engine, o options, start time.Time) int {
 		fmt.Fprintln(os.Stderr, "check needs -prop")
 		return 2
 	}
-	workDir := filepath.Join(o.verif, "work", o.prop)
+	workDir := filepath.Join(o.out, "work", o.prop)
 	os.RemoveAll(workDir)
 	os.MkdirAll(workDir, 0o755)
-	replayDir := filepath.Join(o.verif, "replays", o.prop)
+	replayDir := filepath.Join(o.out, "replays", o.prop)
 	os.MkdirAll(replayDir, 0o755)
 
 	// select functions
@@ -524,9 +529,9 @@ func cmdCheck(eng *Engine, o options, start time.Time) int {
 		},
 		"assumptions": assumptionsFor(o.prop, ctxs, tb),
 	}
-	os.MkdirAll(filepath.Join(o.verif, "evidence"), 0o755)
+	os.MkdirAll(filepath.Join(o.out, "evidence"), 0o755)
 	data, _ := json.MarshalIndent(ev, "", " ")
-	os.WriteFile(filepath.Join(o.verif, "evidence", o.prop+".json"), data, 0o644)
+	os.WriteFile(filepath.Join(o.out, "evidence", o.prop+".json"), data, 0o644)
 	fmt.Printf("gsv: property %s: %d obligations, %d discharged, %d known-finding, %d violations, %.1fs\n", o.prop, total, discharged, known, violations, time.Since(start).Seconds())
 	if !o.keep && violations == 0 && !engineErr {
 		os.RemoveAll(workDir)
